@@ -178,6 +178,38 @@ class Hand:                 # hand-written __init__
         return f"Hand<{self.tag}>"
 
 
+@dataclass(eq=False)
+class KwOnlyBase:
+    world: Any = field(default=None, kw_only=True)
+
+
+@symbol
+@dataclass(eq=False)
+class Part(KwOnlyBase):     # an inherited keyword-only field is DECLARED before the positional ones
+    k: Any = 1
+    v: Any = 7
+    tag: Any = None
+
+    def __repr__(self):
+        return f"Part<{self.tag}>"
+
+
+@symbol
+@dataclass(eq=False)
+class Rev:                  # dataclass with a hand-written __init__ whose parameter order differs from the field order
+    k: Any = 1
+    v: Any = 7
+    tag: Any = None
+
+    def __init__(self, v=7, k=1, tag=None):
+        self.k = k
+        self.v = v
+        self.tag = tag
+
+    def __repr__(self):
+        return f"Rev<{self.tag}>"
+
+
 @symbol
 @dataclass(eq=False)
 class Holder:               # holds another object: nested predicate-form terms
@@ -217,7 +249,7 @@ class Made2(View):
         return f"Made2({self.a!r},{self.b!r})"
 
 
-CLASSES = {c.__name__: c for c in (Item, Other, Base, Sub, USub, Hand, Holder, View, Made, Made2)}
+CLASSES = {c.__name__: c for c in (Item, Other, Base, Sub, USub, Hand, Holder, View, Made, Made2, Part, Rev)}
 
 
 # ------------------------------------------------------------------------------------------------
